@@ -37,6 +37,9 @@ func init() {
 	mutant(&Mutant{Name: "c05-drop-width-100", Property: "C05", File: "svg/svg.go",
 		Old: "\t\t\t\t\tattr == Y && bytes.Equal(val, zeroBytes) ||\n", New: "\t\t\t\t\tattr == Y && bytes.Equal(val, zeroBytes) ||\n\t\t\t\t\tattr == Width && bytes.Equal(val, zeroBytes) ||\n",
 		Rule: "R05.2", Construct: "width=\"0\""})
+	mutant(&Mutant{Name: "c05-text-entities-not-reescaped", Property: "C05", File: "svg/svg.go",
+		Old: "t.Data = parse.ReplaceMultipleWhitespaceAndEntities(t.Data, minifyXML.EntitiesMap, minifyXML.TextRevEntitiesMap)", New: "t.Data = parse.ReplaceMultipleWhitespaceAndEntities(t.Data, minifyXML.EntitiesMap, nil)",
+		Rule: "R05.4", Construct: "ReplaceMultipleWhitespaceAndEntities(t.Data)"})
 	mutant(&Mutant{Name: "c05-drop-title", Property: "C05", File: "svg/svg.go",
 		Old: "\t\t\tif tag == Metadata {\n\t\t\t\tt.Data = nil\n", New: "\t\t\tif tag == Metadata {\n\t\t\t\tt.Data = nil\n\t\t\t} else if tag == Style {\n\t\t\t\tt.Data = nil\n",
 		Rule: "R05.3", Construct: "element dropped"})
@@ -49,6 +52,7 @@ func runC05(c *Ctx) {
 	}
 	c.r051(pk)
 	c.r052(pk)
+	c.entityReescape("R05.4", "svg", 2)
 }
 
 func (c *Ctx) r051(pk *packages.Package) {
